@@ -718,11 +718,13 @@ package mqtt
 //@ requires forall j int :: 0 <= j && j < len(pk.Filters) ==> pk.Filters[j].Qos <= 2
 //@ ensures C07-suback-or-error: r0 == nil ==> sentOne(cl) && lastSent(cl).FixedHeader.Type == Suback && lastSent(cl).PacketID == pk.PacketID && len(lastSent(cl).ReasonCodes) == len(pk.Filters)
 //@ ensures C04-C17-C30-one-code-per-filter-as-prescribed: r0 == nil && !old(has(ifl(cl), pk.PacketID)) ==> (forall j int :: 0 <= j && j < len(pk.Filters) ==> lastSent(cl).ReasonCodes[j] == subCode(s, cl, pk.Filters[j]))
+//@ ensures C03-C31-every-granted-filter-is-in-the-topic-index: r0 == nil ==> (forall j int :: 0 <= j && j < len(pk.Filters) && lastSent(cl).ReasonCodes[j] <= 2 ==> subsview[cl.ID][pk.Filters[j].Filter])
 //@ ensures C23-mqtt3-suback-codes: r0 == nil && cl.Properties.ProtocolVersion < 5 ==> (forall j int :: 0 <= j && j < len(pk.Filters) ==> lastSent(cl).ReasonCodes[j] <= 2 || lastSent(cl).ReasonCodes[j] == 128)
 //@ ensures C38-subscription-counter-follows-index: s.Info.Subscriptions - old(s.Info.Subscriptions) == nsubs - old(nsubs)
 // verif:loop mqtt.Server.processSubscribe 1
 //@ invariant codes: !old(has(ifl(cl), pk.PacketID)) ==> (forall j int :: 0 <= j && j <= rangeindex ==> reasonCodes[j] == subCode(s, cl, pk.Filters[j]))
 //@ invariant v3codes: cl.Properties.ProtocolVersion < 5 ==> (forall j int :: 0 <= j && j <= rangeindex ==> reasonCodes[j] <= 2 || reasonCodes[j] == 128)
+//@ invariant granted-so-far: forall j int :: 0 <= j && j <= rangeindex && reasonCodes[j] <= 2 ==> subsview[cl.ID][pk.Filters[j].Filter]
 //@ invariant counter: s.Info.Subscriptions - old(s.Info.Subscriptions) == nsubs - old(nsubs)
 //@ invariant valid: validCl(cl) && s != nil && s.Info != nil && s.hooks != nil && s.Options != nil && s.Options.Capabilities != nil && s.Options.Capabilities.Compatibilities != nil && s.Topics != nil && s.Topics.root != nil && cl.State.Subscriptions != nil && cl.State.Subscriptions.internal != nil && sentNone(cl)
 //@ invariant bounded: old(s.Info.Subscriptions) <= s.Info.Subscriptions && s.Info.Subscriptions <= old(s.Info.Subscriptions) + rangeindex + 1
